@@ -480,17 +480,26 @@ def r5(ctx):
         for fn in fnames:
             f = gm.get_function(fn)
             p = f.args.args[0].arg
-            rets = [x for x in ast.walk(f) if isinstance(x, ast.Return)]
-            ok = False
-            found = norm_text(rets[0].value) if rets else ""
-            if len(rets) == 1:
-                calls = [c for c in ast.walk(rets[0].value) if isinstance(c, ast.Call) and dotted(c.func) == "int" and len(c.args) == 1]
-                if len(calls) == 1:
-                    a = calls[0].args[0]
-                    if isinstance(a, ast.BinOp) and isinstance(a.op, (ast.Add, ast.Sub)) and isinstance(a.right, ast.Constant) and isinstance(a.left, ast.BinOp) and isinstance(a.left.op, ast.Mult):
-                        l, r = a.left.left, a.left.right
-                        ok = (dotted(l) == p and isinstance(r, ast.Constant) and r.value in (10, 10.0)) or (dotted(r) == p and isinstance(l, ast.Constant) and l.value in (10, 10.0))
-            ctx.check(ok, R, f"{gm.name.split('.')[1]}.utils.{fn}:exact-on-grid", gm, f, f"int({p} * 10.0 +/- <integer>): the scale factor multiplies the input directly (float-exact for every 0.1 degC grid value)", found)
+            from ..minieval import Mini, Unsupported
+
+            offset = -100 if fn == "encode_set_point" else 500
+            bad = []
+            tried = 0
+            for k in range(-400, 1001):  # every 0.1 degC grid value from -40.0 to 100.0
+                t = k / 10
+                try:
+                    got = Mini(ctx.repo, gm).function_value(f, {p: t})
+                except Unsupported as ex:
+                    raise AnalysisError(f"{gm.relpath}: {fn} left the evaluable fragment: {ex}")
+                tried += 1
+                want_v = k + offset
+                if gm.name.split(".")[1] == "at4":
+                    want_v = ((k + offset) << 5) & 0xFFE0  # the 11-bit field sits in bits 15..5 of the two bytes (vendor layout, C04.R1/C05.R1)
+                if got != want_v:
+                    bad.append((t, got, want_v))
+            ok = not bad
+            found = f"{tried} grid values evaluated" if ok else f"{len(bad)} of {tried} grid values are off, e.g. {fn}({bad[0][0]}) = {bad[0][1]!r}, expected {bad[0][2]}"
+            ctx.check(ok, R, f"{gm.name.split('.')[1]}.utils.{fn}:exact-on-grid", gm, f, f"{fn}(k/10) == k {offset:+d} for every 0.1 degC grid value k/10 (evaluated with the checker's own interpreter in binary floating point)", found)
     for fn, want in (("decode_set_point", (Fraction(1, 10), Fraction(10))), ("decode_temperature", (Fraction(1, 10), Fraction(-50)))):
         f = um.get_function(fn)
         p = f.args.args[0].arg
